@@ -205,14 +205,13 @@ def check_umad_rates(ctx, rule):
     ctx.check(goode, rule, "Umad/empty-parent-draws-random_bool(empty_addition_rate)", short(emp[0].ret, 6) if emp else "-", at,
               bad_detail="empty-genome branch must be: size == 0 && empty_addition_rate == Some(r) -> random_bool(r).then(new_gene).into_iter().collect(); extracted " + "; ".join("[%s] -> %s" % (cond_str(p)[:200], short(p.ret, 7)) for p in empty))
     # constructors
-    names = [x["name"] for x in ctx.F.adts["ec_linear::mutator::umad::Umad"]["variants"][0]["fields"]]
-    ctx.check(names == ["addition_rate", "deletion_rate", "empty_addition_rate", "gene_generator"], rule, "Umad/field-order", str(names))
+    from .ctors import check_ctor
+    UF = ("addition_rate", "deletion_rate", "empty_addition_rate", "gene_generator")
     for fn, pat in (("new", Agg("Umad::Umad", Param(1), Param(2), Agg("Option::Some", Param(1)), Param(3))),
                     ("new_with_empty_rate", Agg("Umad::Umad", Param(1), Param(3), Agg("Option::Some", Param(2)), Param(4))),
                     ("new_without_empty", Agg("Umad::Umad", Param(1), Param(2), Agg("Option::None"), Param(3)))):
-        g = ctx.fn("ec_linear::mutator::umad::Umad::<GeneGenerator>::" + fn)
-        ps = return_paths(ctx.paths(g))
-        ctx.check(len(ps) == 1 and match(ps[0].ret, pat), rule, "Umad::%s-stores-parameters-in-like-named-fields" % fn, short(ps[0].ret), g.at())
+        check_ctor(ctx, rule, "Umad::%s-stores-parameters-in-like-named-fields" % fn, "ec_linear::mutator::umad::Umad::<GeneGenerator>::" + fn, pat,
+                   fields=UF, adt="ec_linear::mutator::umad::Umad")
 
 
 def check(ctx):
